@@ -159,7 +159,7 @@ def check_check_transition(ctx):
     not_running = norm.nnf(ast.parse(f"{ns_p} != OperatorState.RUNNING", mode="eval").body)
     for r in trues:
         fs_abs = _abstract_facts(g.facts_at(r), op_p)
-        if ("truth", "@PARENTS_DONE", True) in fs_abs or norm.entails(g.facts_at(r), not_running):
+        if norm.entails(fs_abs, norm._mk("or", [not_running, ("truth", "@PARENTS_DONE", True)])):
             ctx.ob(2, "K2", "an accepting verdict for RUNNING requires every parent to be COMPLETED", True, f, r,
                    detail="all()-form dependency test (or new_state != RUNNING) holds at the return")
             continue
@@ -279,6 +279,10 @@ def check_get_ops(ctx):
     g = cfg_of(f)
     rets = [n for n in own_nodes(f.node) if isinstance(n, ast.Return) and n.value is not None]
     ctx.count_min("returns of get_ops", len(rets), 1)
+    if len(rets) == 1 and isinstance(rets[0].value, ast.ListComp) and len(rets[0].value.generators) == 1:
+        _check_get_ops_comprehension(ctx, f, g, rets[0], state_p)
+        _check_status_init(ctx)
+        return
     res_names = {norm.U(r.value) for r in rets}
     ok_ret = len(res_names) == 1 and all(isinstance(r.value, ast.Name) for r in rets)
     res = rets[0].value.id if ok_ret else None
@@ -338,6 +342,42 @@ def check_get_ops(ctx):
         ok_par = norm.entails(fs_abs, goal)
         ctx.ob(7, "K2", "with require_parents_complete an operator is listed only if all its parents are COMPLETED", ok_par, f, ap,
                detail=f"required: not require_parents_complete or all(parents COMPLETED); facts: {sorted(norm.show(x) for x in fs_abs)}")
+    _check_status_init(ctx)
+
+
+def _check_get_ops_comprehension(ctx, f, g, ret, state_p):
+    """get_ops written as  return [op for op, st in self.operator_states.items() if <conditions>]"""
+    lc = ret.value
+    gen = lc.generators[0]
+    it = norm.U(gen.iter)
+    opv = state_txt = None
+    if it == "self.operator_states.items()" and isinstance(gen.target, ast.Tuple) and len(gen.target.elts) == 2 and all(isinstance(x, ast.Name) for x in gen.target.elts):
+        opv, state_txt = gen.target.elts[0].id, gen.target.elts[1].id
+    elif it in ("self.operator_states", "self.operator_states.keys()") and isinstance(gen.target, ast.Name):
+        opv, state_txt = gen.target.id, f"self.operator_states[{gen.target.id}]"
+    ok_loop = opv is not None and norm.is_name(lc.elt, opv)
+    ctx.ob(8, "K6", "get_ops lists operators in the insertion order of operator_states (one pass, no reordering)", ok_loop, f, ret, detail=f"comprehension over {it}")
+    ctx.ob(7, "K6", "get_ops returns the list it built, unmodified", ok_loop, f, ret, detail="returns the comprehension itself")
+    if not ok_loop:
+        return
+    fs = set(g.facts_at(ret))
+    for c in gen.ifs:
+        fs |= set(norm.atoms_true(norm.nnf(c)))
+    allowed_names = {state_p}
+    for n in own_nodes(f.node):
+        if isinstance(n, ast.Assign) and len(n.targets) == 1 and isinstance(n.targets[0], ast.Name) and norm.U(n.value) in (f"[{state_p}]", state_p, f"({state_p},)", f"list({state_p})"):
+            allowed_names.add(n.targets[0].id)
+    ok_state = any(norm.entails(fs, ("cmp", "in", state_txt, a)) for a in allowed_names) or norm.entails(fs, norm.mk_cmp("==", state_txt, state_p))
+    ctx.ob(7, "K2", "an operator is listed only if its current state is one of the requested states", ok_state, f, ret,
+           detail=f"required: {state_txt} in <{'|'.join(sorted(allowed_names))}>; conditions: {sorted(norm.show(x) for x in fs)}")
+    fs_abs = _abstract_facts(fs, opv)
+    goal = norm._mk("or", [("truth", "require_parents_complete", False), ("truth", "@PARENTS_DONE", True)])
+    ctx.ob(7, "K2", "with require_parents_complete an operator is listed only if all its parents are COMPLETED", norm.entails(fs_abs, goal), f, ret,
+           detail=f"required: not require_parents_complete or all(parents COMPLETED); conditions: {sorted(norm.show(x) for x in fs_abs)}")
+
+
+def _check_status_init(ctx):
+    P = ctx.P
     # (8) __init__ fills operator_states by iterating the pipeline DAG
     init = P.fn(RS, "PipelineRuntimeStatus.__init__")
     ctx.touch(init)
